@@ -4,33 +4,6 @@ import (
 	"github.com/karagenc/socket.io-go/parser"
 )
 
-// verifCause delivers one termination cause to a connected socket.
-func verifCause(w *verifSrv, s *serverSocket, kind int) {
-	switch kind {
-	case 0:
-		w.conn.onClose(ReasonTransportClose, nil) // the Engine.IO connection died
-	case 1:
-		s.onDisconnect() // the client sent DISCONNECT for this namespace
-	case 2:
-		s.Disconnect(false) // the server disconnects the namespace
-	case 3:
-		s.Disconnect(true) // the server closes the connection
-	case 4:
-		s.onClose(ReasonServerShuttingDown) // what Server.Close does for every socket
-	}
-}
-
-var verifCauseReason = []Reason{ReasonTransportClose, ReasonClientNamespaceDisconnect, ReasonServerNamespaceDisconnect, ReasonForcedServerClose, ReasonServerShuttingDown}
-
-// verifReasonOf: does reason r name cause kind? (closing the connection from the server disconnects every namespace
-// first, so it may be reported as a server namespace disconnect)
-func verifReasonOf(r Reason, kind int) bool {
-	if r == verifCauseReason[kind] {
-		return true
-	}
-	return kind == 3 && r == ReasonServerNamespaceDisconnect
-}
-
 // C06_causes: a connected socket receives two termination causes concurrently (every pair of: transport close, client
 // DISCONNECT, server namespace disconnect, server connection close, server shutdown) under all interleavings at
 // synchronisation points. Its disconnect handler runs exactly once with the reason of a cause that occurred;
@@ -109,32 +82,4 @@ func verifH_C06_admission() {
 //verif:rand concrete
 //verif:preempt 2
 //verif:visops 120
-func verifH_C06_join_race() {
-	w := verifServerWorld("/")
-	n := w.nsp("/")
-	w.conn.connect(&parser.PacketHeader{Type: parser.PacketTypeConnect, Namespace: "/"}, verifNoDecode)
-	verifWaitQuiescent()
-	socks := n.Sockets()
-	verifAssert(len(socks) == 1, "socket connected")
-	s := socks[0].(*serverSocket)
-	sid := s.ID()
-	s.Join("room1")
-	cause := verifChoose(0, 4)
-	viaOperator := verifAnyBool()
-	verifThreads(true)
-	verifGo(func() { verifCause(w, s, cause) })
-	verifGo(func() {
-		if viaOperator {
-			n.SocketsJoin("late")
-		} else {
-			s.Join("late")
-		}
-	})
-	verifWaitQuiescent()
-	verifAssert(len(n.Sockets()) == 0, "the namespace no longer lists the socket")
-	rooms, hasRooms := n.adapter.SocketRooms(sid)
-	verifAssert(!hasRooms || rooms.Cardinality() == 0, "the socket is in no room any more, however a late Join interleaves with the teardown")
-	verifAssert(!verifInRoom(n, sid, "late") && !verifInRoom(n, sid, "room1"), "no room lists the socket")
-	verifAssert(verifHeldLocks() == 0, "no mutex left held")
-	verifReach("end")
-}
+func verifH_C06_join_race() { verifJoinRaceBody() }
